@@ -379,6 +379,61 @@ func runC14(c *Ctx) {
 	}
 	c.check(stepOK, "C14.R3", "scan-step "+m.fnName(locate), "the scan cursor advances by a load of rsdpAlignment",
 		"the scan cursor does not advance by rsdpAlignment", m.pos(locate.Pos()))
+	// the search window, by role: the cursor starts at a package variable and is
+	// compared with another one; their initialisers are the BIOS area 0xe0000 ..
+	// 0xfffff of the ACPI specification
+	{
+		var lowG, hiG *ssa.Global
+		globalOf := func(v ssa.Value) *ssa.Global {
+			if ld, ok := stripConv(v).(*ssa.UnOp); ok && ld.Op == token.MUL {
+				if gg, ok := ld.X.(*ssa.Global); ok {
+					return gg
+				}
+			}
+			return nil
+		}
+		for n, in := range gl.Ins {
+			phi, ok := in.(*ssa.Phi)
+			if !ok {
+				continue
+			}
+			adv := false
+			for _, e := range phi.Edges {
+				if b, ok := e.(*ssa.BinOp); ok && b.Op == token.ADD && b.X == ssa.Value(phi) && isLoadOfGlobal(b.Y, align) {
+					adv = true
+				}
+			}
+			if !adv {
+				continue
+			}
+			for _, e := range phi.Edges {
+				if gg := globalOf(e); gg != nil {
+					lowG = gg
+				}
+			}
+			_ = n
+			for k := range gl.Ins {
+				if _, isIf := gl.Ins[k].(*ssa.If); !isIf {
+					continue
+				}
+				if f, ok := condFact(gl.Cond(k), true); ok && f.Y != nil {
+					if stripConv(f.X) == ssa.Value(phi) && globalOf(f.Y) != nil {
+						hiG = globalOf(f.Y)
+					} else if stripConv(f.Y) == ssa.Value(phi) && globalOf(f.X) != nil {
+						hiG = globalOf(f.X)
+					}
+				}
+			}
+		}
+		if lowG == nil || hiG == nil {
+			c.fail("C14.R3", "search-window "+m.fnName(locate), "the scan cursor does not run from one package variable to another (rule shape lost)", m.pos(locate.Pos()))
+		} else {
+			lo, ok1 := m.globalConstInit(lowG)
+			hi, ok2 := m.globalConstInit(hiG)
+			c.check(ok1 && ok2 && lo == 0xe0000 && hi == 0xfffff, "C14.R3", "search-window "+m.fnName(locate), "the scan covers the BIOS area 0xe0000 .. 0xfffff",
+				fmt.Sprintf("the scan window is %s=%#x .. %s=%#x (single constant initialiser: %v/%v), not the BIOS area 0xe0000 .. 0xfffff: a root pointer in the part that is left out is not found", lowG.Name(), lo, hiG.Name(), hi, ok1, ok2), m.pos(locate.Pos()))
+		}
+	}
 	if av, ok := m.globalConstInit(align); ok {
 		c.check(av == 16, "C14.R3", "scan-alignment acpi.rsdpAlignment", "rsdpAlignment is initialised to 16", fmt.Sprintf("rsdpAlignment is initialised to %d, not 16", av))
 	}
